@@ -35,6 +35,8 @@ struct Observer {
   virtual void cut(const char *why) {}
   // value for havoc / uninitialised (default: from the interpreter's PRNG)
   virtual bool choose(int var, i128 &out) { return false; }
+  // order in which the successors of b are tried (default: shuffled by the interpreter's PRNG)
+  virtual bool order_successors(int f, int b, std::vector<int> &succs) { return false; }
 };
 
 static const i128 GUARD = ((i128)1) << 100;
@@ -456,7 +458,8 @@ struct Exec {
       }
       std::vector<int> succs = f.blocks[cur].succs;
       if (succs.empty()) return RS_STUCK;
-      for (size_t i = succs.size(); i > 1; --i) std::swap(succs[i - 1], succs[rng.below(i)]);
+      if (!obs.order_successors(fi, cur, succs))
+        for (size_t i = succs.size(); i > 1; --i) std::swap(succs[i - 1], succs[rng.below(i)]);
       cur = succs[0];
       alts.assign(succs.begin() + 1, succs.end());
       if (!alts.empty()) snap = st;
